@@ -40,3 +40,41 @@ package crypto
 //@   nilable pub
 //@   requires pubKeyOK(pub)
 //@   ensures ret1 == nil ==> istype(ret0, ed25519.PublicKey) && len(unboxed(ret0, ed25519.PublicKey)) == 32
+
+// ---- C11: Ed25519 key encodings round-trip; decoders are total ----
+// The raw encoding of a private key is its 64 bytes; decoding accepts exactly 64 bytes, or 96 bytes
+// whose last 32 repeat bytes 32..63 (the redundant public key), and yields the first 64.
+//@ spec fun privRawOK(d bytes) bool = len(d) == 64 || (len(d) == 96 && d[32..64] == d[64..96])
+//@ spec fun privRawDec(d bytes) bytes = d[0..64]
+//@ lemma c11-priv-roundtrip: forall k bytes :: len(k) == 64 ==> privRawOK(k) && privRawDec(k) == k
+//@ lemma c11-priv-96: forall k bytes :: len(k) == 64 ==> privRawOK(k ++ k[32..64]) && privRawDec(k ++ k[32..64]) == k
+
+//@ func UnmarshalEd25519PrivateKey
+//@   ensures privRawOK(old(content(data))) <==> ret1 == nil
+//@   ensures ret1 == nil ==> istype(ret0, ptr(Ed25519PrivateKey)) && unboxed(ret0, ptr(Ed25519PrivateKey)) != nil && len(unboxed(ret0, ptr(Ed25519PrivateKey)).k) == 64 && content(unboxed(ret0, ptr(Ed25519PrivateKey)).k) == privRawDec(old(content(data)))
+//@   ensures ret1 != nil ==> ret0 == nil
+
+//@ func UnmarshalEd25519PublicKey
+//@   ensures len(data) == 32 <==> ret1 == nil
+//@   ensures ret1 == nil ==> istype(ret0, ptr(Ed25519PublicKey)) && unboxed(ret0, ptr(Ed25519PublicKey)) != nil && content(unboxed(ret0, ptr(Ed25519PublicKey)).k) == content(data)
+//@   ensures ret1 != nil ==> ret0 == nil
+
+//@ func (*Ed25519PrivateKey).Raw
+//@   ensures ret1 == nil && content(ret0) == content(k.k)
+//@   fresh ret0
+
+//@ func (*Ed25519PublicKey).Raw
+//@   ensures ret1 == nil && content(ret0) == content(k.k)
+
+// the public key of a private key is its last 32 bytes
+//@ func (*Ed25519PrivateKey).GetPublic
+//@   requires len(k.k) == 64
+//@   ensures ret != nil && istype(ret, ptr(Ed25519PublicKey)) && unboxed(ret, ptr(Ed25519PublicKey)) != nil && content(unboxed(ret, ptr(Ed25519PublicKey)).k) == content(k.k)[32..64]
+
+// privPBok(d): d is a protobuf PrivateKey message of a supported type whose data the type's
+// unmarshaller accepts (uninterpreted: the dispatch goes through a mutable map of function values).
+//@ spec fun privPBok(d bytes) bool
+//@ func UnmarshalPrivateKey
+//@   trusted dispatch through a mutable map of function values (PrivKeyUnmarshallers)
+//@   ensures ret1 == nil ==> ret0 != nil && privPBok(data)
+//@   ensures ret1 != nil ==> ret0 == nil
